@@ -369,7 +369,11 @@ func (f *Frame) enterLoop(h *ssa.BasicBlock, li *loopInfo, live []inEdge, header
 	}
 	// ghost call records are unknown in an arbitrary iteration
 	for k := range st.Ghost {
-		st.Ghost[k] = c.fresh("loopghost", SBool)
+		if strings.HasPrefix(k, "result:") {
+			st.Ghost[k] = c.fresh("loopghost", SInt)
+		} else {
+			st.Ghost[k] = c.fresh("loopghost", SBool)
+		}
 	}
 	st.GhostUnknown = true
 	for cell := range cells {
